@@ -268,6 +268,16 @@ func ffail(out evid.Outcome, classes map[string]bool, sig, format string, args .
 	return o
 }
 
+var fwTypeNames = func() []string {
+	var out []string
+	for _, n := range typeNames {
+		if n != "I0" {
+			out = append(out, n)
+		}
+	}
+	return out
+}()
+
 func genFCase(t *rapid.T) FCase {
 	var c FCase
 	pick := func(label string, max int) []string {
@@ -284,7 +294,9 @@ func genFCase(t *rapid.T) FCase {
 		h := FH{Kind: kinds[rapid.IntRange(0, len(kinds)-1).Draw(t, "kind")]}
 		if h.Kind == "typed" {
 			for j, m := 0, rapid.IntRange(0, 3).Draw(t, "nin"); j < m; j++ {
-				h.In = append(h.In, typeNames[rapid.IntRange(0, len(typeNames)-1).Draw(t, "in")])
+				// the empty interface is left to the injector-level check: the
+				// framework's own services in the request scope satisfy it too
+				h.In = append(h.In, fwTypeNames[rapid.IntRange(0, len(fwTypeNames)-1).Draw(t, "in")])
 			}
 		}
 		if h.Kind == "ctx" || h.Kind == "refl" || h.Kind == "typed" {
